@@ -814,6 +814,11 @@ bool TimeZoneInfo::Load(ZoneInfoSource* zip) {
       // No one does this in practice, and we depend on it in MakeTime().
       if (!Transition::ByCivilTime()(transitions_[i - 1], tr))
         return false;  // out of order
+      // The stored transitions are ordered by time, but the generated ones
+      // of adjacent rule years need not be (a DST period that runs into
+      // the next one); the lookups search by time too.
+      if (transitions_[i - 1].unix_time > tr.unix_time)
+        return false;  // out of order
     }
   }
 
